@@ -14,7 +14,8 @@ def tasks(run):
     out = [('program', (name, seed, {})) for (name, seed) in models.programs(run.seed, n)]
     for (name, seed) in models.programs(run.seed + 3, 11):
         out.append(('resolve', (name, seed, 'new_iterate')))
-    out += [('program', ('T_duplicates', v, {})) for v in range(2)]          # an object registered twice is sent once per registration
+    out += [('program', ('T_duplicates', v, {})) for v in range(2)]
+    out += [('unused_function', (k + (run.seed % 21),)) for k in range(21 if run.tier != 'quick' else 7)]       # a declared, never evaluated function adds nothing          # an object registered twice is sent once per registration
     return out
 
 
